@@ -235,8 +235,21 @@ class ConvertSpec(FunctionSpec):
                     out.append(rai("from:%s/to:%s" % (n1, n2), g, x2, props=("C05",)))
                     continue
                 pr = ("C01", "C02") if (n1, n2) == ("direct", "direct") else (("C16",) if "legacy" in (n1, n2) else ("C02",))
-                out.append(ret("from:%s/to:%s" % (n1, n2), g, props=pr, check=self.value_check(ctx, st, x1, x2)))
+                out.append(ret("from:%s/to:%s" % (n1, n2), g, props=pr, check=self.value_check(ctx, st, x1, x2), value=self.value_of(ctx, st, x1, x2) if ctx.get("$call") else None))
         return out
+
+    def value_of(self, ctx, st, k1, k2):
+        """summary side: the converted value the contract promises"""
+        v = ctx["value"]
+
+        def mk(I):
+            if isinstance(v, SNum):
+                return SNum(conv_term(st, k1, k2, v.real()), "float")
+            if isinstance(v, symseq.SymSeq):
+                return v.map_term(I, lambda e: conv_term(st, k1, k2, e))
+            raise OutOfSubset("Convert summary on %r" % (v,))
+
+        return mk
 
     def value_check(self, ctx, st, k1, k2):
         v = ctx["value"]
